@@ -23,6 +23,16 @@ META.update({
    detected_by={'C19': 'yes but thin: 3 of 2500 runs (inputs_unchanged on ema / ema_timed, task_wrote_argument on ema); histories lengthened to 1-6 steps afterwards'}),
  'C20-b': dict(property='C20', file='groupby_lib/nanops.py: reduce_1d', needs='>= 2 blocks AND an integer dtype narrower than 64 bits AND a widening reduction (sum/mean/var/std/count) AND a block partial outside the input dtype range',
    detected_by={'C20': 'yes: 9 of 10000 runs, but only after the integer alphabet got realistic large magnitudes (1e9) and int32 joined the quick dtypes -- both added because of this mutant and of the int overflow the same agent pointed out in nanvar (repaired as d3d9ec6)'}),
+ 'C03-c': dict(property='C03', file='groupby_lib/groupby/core.py: GroupBy.count_ikey', needs='a chunked key that still has its pointer tables AND a slice mask whose start lies at or beyond the end of the first key chunk AND a reduction with observed_only=True where some group has zero count in the slice AND chunks with differing pointer tables: the set of groups reported as observed is wrong (values stay right)',
+   detected_by={'C03': 'yes but thin: 1 of 2500 runs (strategy_vs_baseline label_diff on sum); slice masks were made more frequent and their bounds biased to likely chunk boundaries afterwards (still ~1 of 2500: the conjunction is rare; the thorough tier runs 120 000)'}),
+ 'C04-c': dict(property='C04', file='groupby_lib/groupby/numba.py: _group_func_wrap', needs='values with more than one chunk (pyarrow.ChunkedArray) AND a slice mask that has a step other than 1 or cuts into the column: the slice is applied to each chunk separately',
+   detected_by={'C04': 'yes: 112 of 20000 runs, 9 sites -- through non-stepped slices only, because the generator wrongly excluded stepped slices over chunked values ("not supported by pyarrow": they are); exclusion removed'}),
+ 'C13-c': dict(property='C13', file='groupby_lib/groupby/core.py: groupby_method decorator (module-level memo of the last class-form grouping, keyed on a weak reference to the key object)', needs='a class-form call with a weak-referenceable key object K, then K edited in place (same Python object, new content), then another class-form call with K and no class-form call on another key object in between',
+   detected_by={'C13': 'MISSED at first: class-form steps built fresh key arrays. Strengthened in two steps: the simulated client owns the class-form key object and reuses it (plus a second key array of the same length), and may refill its key buffer in place between two class-form calls; class-form calls come in bursts. Now yes: 36 of 3000 runs, 24 sites'}),
+ 'C19-c': dict(property='C19', file='groupby_lib/groupby/core.py: GroupBy.size', needs='size() with mask=None, no transform, no margins AND observed_only=False AND labels needing no re-ordering AND the caller edits the returned Series in place AND the same object is used again (variant of C19-a through another option)',
+   detected_by={'C19': 'yes: 23 of 1200 runs (repeat_same_object on size)'}),
+ 'C20-c': dict(property='C20', file='groupby_lib/nanops.py: reduce_2d', needs='2-D input AND an explicit n_threads with 2 <= n_threads < number of rows/columns reduced AND per-slice results not all equal: results are returned round-robin interleaved',
+   detected_by={'C20': 'yes: 511 of 10000 runs, 6 sites'}),
 })
 for id_, m in META.items():
     d=f'{ROOT}/{id_}'
